@@ -25,6 +25,7 @@ pub fn run(id: &str, tier: Tier, replay: Option<&str>) -> i32 {
         "C31" | "C32" => small::run(id, tier, replay),
         "C18" | "C21" | "C25" | "C33" => artifacts::run(id, tier, replay),
         "C26" => nopanic::run(tier, replay),
+        "C19-deep" => robust::deep_worker(&std::env::args().skip(2).collect::<Vec<_>>()),
         "C26-deep" => nopanic::deep_worker(&std::env::args().skip(2).collect::<Vec<_>>()),
         "C27" | "C28" | "C30" | "C34" => lsprops::run(id, tier, replay),
         "C29" => lssched::run(tier, replay),
